@@ -1449,6 +1449,9 @@ func genSpecs(t *rapid.T, depth, max int, o specOpts, label string) []*Spec {
 		// many fields in one list (beyond every pre-sized slice): cheap scalar ones
 		n = rapid.SampledFrom([]int{9, 17, 33, 65}).Draw(t, "wideCount")
 		nsRun := rapid.Bool().Draw(t, "namespaceRun") // ... or that many namespaces opened one inside the other
+		if nsRun && rapid.IntRange(0, 3).Draw(t, "hundredsOfNamespaces") == 0 {
+			n = rapid.SampledFrom([]int{510, 512, 514, 600}).Draw(t, "nsRunLength") // 255..300 namespaces open at once
+		}
 		out := make([]*Spec, 0, n)
 		for i := 0; i < n; i++ {
 			if nsRun && i%2 == 0 {
